@@ -223,6 +223,20 @@ func GenWorld(rng *rand.Rand, o WorldOpts) *World {
 			}
 			addOwner(deep)
 		}
+		// answers that do not fit a 512-byte datagram: one record that is too big on its own (truncation leaves
+		// nothing), and a set of 30 records (truncation leaves a part)
+		if rng.Intn(3) == 0 {
+			n := join("huge", z)
+			b.txtWith(n, false, "", strings.Repeat("h", 600+rng.Intn(800)))
+			addOwner(n)
+		}
+		if rng.Intn(3) == 0 {
+			n := join("many", z)
+			for i := 0; i < 30; i++ {
+				b.txtWith(n, false, "", fmt.Sprintf("many-%02d-%s", i, strings.Repeat("m", 20)))
+			}
+			addOwner(n)
+		}
 		// zone-wide wildcard at the apex
 		if rng.Intn(3) == 0 {
 			b.addrLine(z, true, locOf(), b.randIP(), 0)
